@@ -74,8 +74,9 @@ def path_class_accounts(ctx: Ctx, rng: random.Random, cap: int, tag: str) -> dic
         rng.shuffle(special)
         pool = special[:40]
         special_of[meth] = list(pool)
-        for k in range(24 if ctx.quick else 80):
-            a = "0" * (k % 4) + "".join(rng.choice("0123456789") for _ in range(10 - k % 4))
+        for k in range(32 if ctx.quick else 96):
+            z = (0, 1, 2, 3, 4, 5, 6, 7)[k % 8]           # up to seven leading zeros: short account numbers
+            a = "0" * z + "".join(rng.choice("0123456789") for _ in range(10 - z))
             pool.append(a)
             if k % 3 == 0:
                 pool += c07.with_every_check_digit(a, meth)
